@@ -104,7 +104,11 @@ fn fill_view(v: &mut View, x: &mut Restored) {
         Ok((w, _)) => w.as_num(),
         Err(_) => u32::MAX,
     };
-    v.next = (x.first_job_id, first_worker, x.first_queue_id);
+    // the first queue id as `bootstrap::start_server` leaves it: the autoalloc state is seeded with the restored counter,
+    // the restored queues are re-added under their old ids through the REAL `AddQueue` handler, then a new queue is added
+    let ids: Vec<u32> = x.queues.iter().map(|q| q.0).collect();
+    let first_queue = first_queue_id_after_bootstrap(x.queue_id_counter, &ids).unwrap_or(x.first_queue_id);
+    v.next = (x.first_job_id, first_worker, first_queue);
     v.queues = x.queues.clone();
     for j in &x.jobs {
         let c = &j.counters;
@@ -135,6 +139,34 @@ fn fill_view(v: &mut View, x: &mut Restored) {
         Ok(ts) => Some(ts.iter().map(|t| { let mut d = t.deps.clone(); d.sort(); (t.job, t.task, t.instance, t.crash_counter, d) }).collect()),
         Err(_) => None,
     };
+}
+
+struct NoEnv;
+impl hyperqueue::verif::autoalloc::VerifEnv for NoEnv {
+    fn now_ms(&mut self) -> u64 { 0 }
+    fn submit(&mut self, _: u32, _: u64) -> hyperqueue::verif::autoalloc::VerifSubmit { hyperqueue::verif::autoalloc::VerifSubmit::Fail }
+    fn statuses(&mut self, _: u32, _: &[String]) -> Option<Vec<hyperqueue::verif::autoalloc::VerifStatus>> { None }
+    fn remove(&mut self, _: u32, _: &str) -> bool { true }
+    fn query(&mut self, _: &[hyperqueue::verif::autoalloc::VerifQuery]) -> Option<hyperqueue::verif::autoalloc::VerifQueryResponse> { None }
+}
+
+fn first_queue_id_after_bootstrap(counter: u32, restored: &[u32]) -> Option<u32> {
+    use hyperqueue::verif::autoalloc::{VerifAutoAlloc, VerifQueueParams};
+    let restored = restored.to_vec();
+    catch(move || {
+        let env: hyperqueue::verif::autoalloc::VerifEnvRef = std::rc::Rc::new(std::cell::RefCell::new(NoEnv));
+        let rt = tokio::runtime::Builder::new_current_thread().enable_all().build().unwrap();
+        rt.block_on(async move {
+            let mut va = VerifAutoAlloc::new(counter, env);
+            let params = |id: Option<u32>| VerifQueueParams { pbs: false, backlog: 1, max_workers_per_alloc: 1, max_worker_count: None, limiter: None, queue_id: id };
+            for q in restored {
+                va.add_queue(params(Some(q))).await;
+            }
+            va.add_queue(params(None)).await.1
+        })
+    })
+    .ok()
+    .flatten()
 }
 
 fn o(x: Option<u64>) -> String { x.map(|v| v.to_string()).unwrap_or_else(|| "-".into()) }
